@@ -6,7 +6,7 @@ CONSTANTS
   ConnOf <- TwoConn
   SigOf <- MixedSig
   Rounds <- R1
-  EmitSeq <- EmitAB
+  EmitSeq <- EmitA
   QCap = 2
   Dev_ProxySectionsNotAtomic = FALSE
   Dev_SendAfterSnapshot = FALSE
